@@ -30,6 +30,7 @@ class Net:
         self.on_send: Callable | None = None
         self.nsock = 0
         self.local_prefixes: tuple = ()  # addresses that never cross the network (delivered at once, no faults)
+        self.hold_filter: Callable | None = None  # (addr, frames) -> True: keep the frame in `flight` until released
         outer = self
 
         class Socket:
@@ -76,7 +77,12 @@ class Net:
                 outer.sent_log.append((self.addr, fr))
                 if outer.on_send is not None:
                     outer.on_send(self, fr)
-                if outer.staged and not self.addr.startswith(outer.local_prefixes):
+                if outer.hold_filter is not None:
+                    if outer.hold_filter(self.addr, fr):
+                        outer.flight.append((self.addr, fr, self.tag))
+                    else:
+                        outer.queues[self.addr].append(fr)
+                elif outer.staged and not self.addr.startswith(outer.local_prefixes):
                     outer.flight.append((self.addr, fr, self.tag))
                 else:
                     outer.queues[self.addr].append(fr)
